@@ -29,15 +29,15 @@ def cfg_text(consts, invariants, init="Init", nxt="Next", extra=""):
 
 # ------------------------------------------------------------------------------------------------ C10
 
-def cb_consts(shape, mg=1, mu=4, mo=4, md=2, multi=False, fail=True, fix=False, gen=False, late=False, norebind=False, keepscope=False, extractfirst=False, nobreak=False):
+def cb_consts(shape, mg=1, mu=4, mo=4, md=2, multi=False, fail=True, fix=False, gen=False, late=False, norebind=False, keepscope=False, extractfirst=False, nobreak=False, dv=False, sharebase=False):
     return {"Shape": shape, "MaxGlobal": mg, "MaxUndes": mu, "MaxOpts": mo, "MaxDOpts": md, "Multi": multi, "AllowFail": fail,
-            "CopyFix": fix, "Gen": gen, "LateFlag": late, "NoRebind": norebind, "KeepScope": keepscope, "ExtractFirst": extractfirst, "NoBreak": nobreak, "NestedOnce": fix}
+            "CopyFix": fix, "Gen": gen, "LateFlag": late, "NoRebind": norebind, "KeepScope": keepscope, "ExtractFirst": extractfirst, "NoBreak": nobreak, "NestedOnce": fix, "AllowDv": dv, "ShareBase": sharebase}
 
 
 def cb_model(shape, *, fix, timeout=600, workers=4, **kw):
     """Impl => P on the model: Callbacks.tla (as coded, or with the proposed repair) judged by CbRule."""
     c = cb_consts(shape, fix=fix, gen=False, **kw)
-    name = "mc_cb_%s_%s%s.cfg" % (shape, "fix" if fix else "asis", "_late" if kw.get("late") else "_norebind" if kw.get("norebind") else "_keepscope" if kw.get("keepscope") else "_xfirst" if kw.get("extractfirst") else "_nobreak" if kw.get("nobreak") else "")
+    name = "mc_cb_%s_%s%s.cfg" % (shape, "fix" if fix else "asis", "_late" if kw.get("late") else "_norebind" if kw.get("norebind") else "_keepscope" if kw.get("keepscope") else "_xfirst" if kw.get("extractfirst") else "_nobreak" if kw.get("nobreak") else "_sharebase" if kw.get("sharebase") else "")
     return vlib.tlc("Callbacks", name, files={name: cfg_text(c, ("RuleOK",))}, workers=workers, timeout=timeout, heap="4g")
 
 
@@ -65,6 +65,8 @@ def cb_decorate(cases, rnd, stream_frac=0.4):
         leaves = [u["u"] for u in c["units"] if not u["graph"]]
         if rnd.random() < stream_frac:
             c["mode"] = "stream"
+            if c["shape"] not in ("sbr", "nsbr", "tools") and rnd.random() < 0.4:
+                c["mode"] = rnd.choice(["transform", "collect"])   # top-level call with a partly read array-backed input stream
             c["kinds"] = {u: rnd.choice(["i", "s", "s", "t"]) for u in leaves}
         else:
             c["mode"] = "invoke"
